@@ -8,7 +8,7 @@ RULE = ("action sequences (length <= 25) over {start, stop, enter/leave the asyn
         "holds it (probe bind after the loop has cycled) are compared with the model; the Spec judge re-checks the invariant on the "
         "observed state; non-trivial = distinct (ports, action word)")
 ASSUMPTIONS = ["PARTIAL: socket release timing is the kernel's and asyncio's (observed after two loop cycles); a broadcast counts as "
-               "dropped when no callback happened within 60 ms on loopback"]
+               "dropped when the port is held by nobody (30 ms grace) or when a port that is held produced no callback within 2 s"]
 
 
 def _impl(a):
